@@ -20,13 +20,18 @@ _POOL = {
     'spin_loops': True, 'checks': ['--no-standard-checks', '--div-by-zero-check', '--bounds-check'],
     'timeout': 1500, 'must_reach': 'all',
 }
+_NEST = ('; OVERLAPPING BODIES: every body has one scheduling point between its start and its throw/finish where (symbolic choice per body) '
+         'another pool worker runs one queued task to completion (nested execution, depth 1, needs a free pool thread: tasks in flight on '
+         'workers < pool size; the outer body runs on the virtual worker or on the owner inside wait()/tryWait()/inline schedule(f)), so '
+         'two throwers that were both in flight are covered: outer starts, nested starts, nested throws and is recorded, outer throws')
 _SHAPES = {0: 'schedule(f)', 1: 'schedule(f, ForceQueuingTag)', 2: 'scheduleBulk(2, gen)', 3: 'scheduleBulk(2, gen, ForceQueuingTag)'}
 
 
-def exc(setk, pool, cost=1, mask=15, nwait=1, wsteps=1, ctx=1, tiers=('thorough',), tag=''):
-    name = '%s%s_p%d_m%d_w%d%s' % ('ts' if setk == 0 else 'cts', '' if setk == 0 else ('H' if cost else 'L'), pool, mask, nwait, tag)
+def exc(setk, pool, cost=1, mask=15, nwait=1, wsteps=1, ctx=1, nest=0, tiers=('thorough',), tag=''):
+    name = '%s%s_p%d_m%d_w%d%s%s' % ('ts' if setk == 0 else 'cts', '' if setk == 0 else ('H' if cost else 'L'), pool, mask, nwait,
+                                   '_nest' if nest else '', tag)
     defs = {'VF_SET': setk, 'VF_POOL_N': pool, 'VF_COST': cost, 'VF_OPMASK': mask, 'VF_NWAIT': nwait, 'VF_WSTEPS': wsteps,
-            'VF_CTX': ctx, 'VF_MQ_CAP': 1, 'VF_PQ_CAP': 2}
+            'VF_CTX': ctx, 'VF_NEST': nest, 'VF_MQ_CAP': 1, 'VF_PQ_CAP': 2}
     shapes = ', '.join(_SHAPES[k] for k in range(4) if (mask >> k) & 1)
     b = ('%s%s on the contract pool with %d threads; 2 task bodies of which a symbolic subset throws; submitted as two single calls or '
          'one bulk call out of {%s} from a symbolic load pre-state (load multiplier 1..4%s); <=%d virtual-worker step(s) after each call; '
@@ -35,6 +40,8 @@ def exc(setk, pool, cost=1, mask=15, nwait=1, wsteps=1, ctx=1, tiers=('thorough'
          % ('TaskSet' if setk == 0 else 'ConcurrentTaskSet', '' if setk == 0 else (' kHeavy (placed route)' if cost else ' kLightweight'),
             pool, shapes, ', caller is/is not a pool thread, inline depth 0..33, 0..4096 other pool tasks pending' if ctx else '',
             wsteps, nwait))
+    if nest:
+        b += _NEST
     d = dict(_POOL)
     loops, outer = 3, 2
     d.update({'name': name, 'src': 'exc.cpp', 'defs': defs, 'bounds': b, 'tiers': list(tiers), 'unwind': 3,
@@ -50,6 +57,7 @@ def exc(setk, pool, cost=1, mask=15, nwait=1, wsteps=1, ctx=1, tiers=('thorough'
 _Q = ('quick', 'thorough')
 INSTANCES = [
     exc(1, 1, cost=1, mask=3, tiers=_Q),
+    exc(1, 2, cost=1, mask=2, nest=1, ctx=0, tiers=_Q),
     # thorough tier (defined, not run in this round): other set kind / pool sizes / bulk shapes / two completion calls
     exc(0, 1, mask=3), exc(1, 1, cost=0, mask=3), exc(1, 2, cost=1, mask=12), exc(0, 2, mask=12), exc(1, 2, cost=0, mask=12),
     exc(0, 0, mask=15), exc(1, 0, cost=1, mask=15), exc(1, 1, cost=1, mask=3, nwait=2), exc(0, 1, mask=15, nwait=2),
